@@ -287,6 +287,13 @@ def gen_hier_schema(rng):
         classes.append({"parent": parent, "own_fields": own, "own_hooks": hooks,
                         "own_ctx": rng.choice([None, None, None, True] + ([] if base_ctx else [False])),
                         "tag": rng.random() < 0.85})
+    # nested class-level discriminators: a subclass with subclasses of its own becomes a dispatcher too
+    for c in range(2, 2 + nsub):
+        if L.descendants(schema, c) and rng.random() < 0.5:
+            if rng.random() < 0.5 and kind in NO_FORMAT_METHOD:
+                classes[c]["disc"] = "nofield"
+            elif callable_variants(schema, c, [d for d in L.descendants(schema, c) if classes[d].get("tag")]):
+                classes[c]["disc"] = "field"
     r = rng.random()
     if r < 0.3 and callable_variants(schema, 1, L.disc_variants(schema, 1, True, False)):
         classes[1]["disc"], classes[1]["tag"] = "field", False
@@ -322,7 +329,7 @@ def substitutable(schema, c):
     """subclasses whose instances may stand at a position declared with class c: same context option and the same
     other code generation options (the keyword list of the call is computed from the declared class), finite"""
     return [d for d in L.descendants(schema, c)
-            if L.ctx_on(schema, d) == L.ctx_on(schema, c) and L.class_flags(schema, d) == L.class_flags(schema, c)
+            if not schema["classes"][d].get("disc") and L.ctx_on(schema, d) == L.ctx_on(schema, c) and L.class_flags(schema, d) == L.class_flags(schema, c)
             and not any(reaches_class(schema, L.name_ty(schema, n), c) for n in L.flat_fields(schema, d))]
 
 
@@ -715,6 +722,7 @@ def run(ctx: vlib.Ctx):
             for x in schema["names"].values())))
         ctx.hist("schema_features", "config-discriminator with field", int(any(k.get("disc") in ("field", True) for k in schema["classes"])))
         ctx.hist("schema_features", "config-discriminator without field", int(any(k.get("disc") == "nofield" for k in schema["classes"])))
+        ctx.hist("schema_features", "nested class-level discriminator", int(any(k.get("disc") and k["parent"] is not None for k in schema["classes"])))
         ctx.hist("schema_features", "Annotated discriminator", int(any("disc" in json.dumps(x["ty"]) for x in schema["names"].values())))
         ctx.hist("schema_features", "typing.Self recursion", int(any(x.get("self") for x in schema["names"].values())))
         ctx.hist("schema_features", "class-name recursion", int(any(
